@@ -175,8 +175,36 @@ Definition mod_hdr (f : header -> header) : Mst unit := modS (fun s => set_hdr s
 Definition when (b : bool) (m : Mst unit) : Mst unit := if b then m else ret tt.
 
 (* ---------- c3d::updateHeader ---------- *)
-(* have_data is false only while a file is being loaded (the data section is not built yet) *)
-Definition update_header (have_data : bool) : Mst unit :=
+(* sub-frames per frame from the rate ratio (1 when the point rate truncates to 0); only when ANALOG has parameters *)
+Definition analog_rate_step (rate : f32) : Mst unit :=
+  s <- getS ;;
+  ga <- get_group nm_ANALOG ;;
+  when (negb (nlen (g_params ga) =? 0))
+    (rs <- lift (f_tosize rate) ;;
+     if rs =? 0 then
+       when (negb (h_byframe (hdr s) =? 1)) (mod_hdr (fun h => h_set_byframe h 1))
+     else
+       ar <- float0 15 nm_ANALOG nm_RATE ;;
+       q <- lift (f_tosize (f_div ar rate)) ;;
+       when (negb (q =? h_byframe (hdr s)))
+            (ar2 <- float0 16 nm_ANALOG nm_RATE ;;
+             q2 <- lift (f_tosize (f_div ar2 rate)) ;;
+             mod_hdr (fun h => h_set_byframe h q2))).
+
+(* the data win when a first frame with sub-frames exists, otherwise the rates *)
+Definition byframe_step (have_data : bool) (rate : f32) : Mst unit :=
+  s <- getS ;;
+  match (if have_data then frames s else []) with
+  | f0 :: _ =>
+      if negb (nlen (fr_subs f0) =? 0) then
+        when (negb (nlen (fr_subs f0) =? h_byframe (hdr s)))
+             (mod_hdr (fun h => h_set_byframe h (nlen (fr_subs f0))))
+      else analog_rate_step rate
+  | [] => analog_rate_step rate
+  end.
+
+(* rate and point count follow POINT:RATE and POINT:USED *)
+Definition uh_rate_points : Mst f32 :=
   rate <- float0 12 nm_POINT nm_RATE ;;
   s <- getS ;;
   k1 <- lift (f_key rate) ;;
@@ -186,52 +214,32 @@ Definition update_header (have_data : bool) : Mst unit :=
   s <- getS ;;
   when (negb (z_to_usize u =? h_points (hdr s)))
        (u2 <- int0 14 nm_POINT nm_USED ;; mod_hdr (fun h => h_set_points h (z_to_usize u2))) ;;;
-  s <- getS ;;
-  (match (if have_data then frames s else []) with
-   | f0 :: _ =>
-       if negb (nlen (fr_subs f0) =? 0) then
-         when (negb (nlen (fr_subs f0) =? h_byframe (hdr s)))
-              (mod_hdr (fun h => h_set_byframe h (nlen (fr_subs f0))))
-       else
-         ga <- get_group nm_ANALOG ;;
-         when (negb (nlen (g_params ga) =? 0))
-           (rs <- lift (f_tosize rate) ;;
-            if rs =? 0 then
-              when (negb (h_byframe (hdr s) =? 1)) (mod_hdr (fun h => h_set_byframe h 1))
-            else
-              ar <- float0 15 nm_ANALOG nm_RATE ;;
-              q <- lift (f_tosize (f_div ar rate)) ;;
-              when (negb (q =? h_byframe (hdr s)))
-                   (ar2 <- float0 16 nm_ANALOG nm_RATE ;;
-                    q2 <- lift (f_tosize (f_div ar2 rate)) ;;
-                    mod_hdr (fun h => h_set_byframe h q2)))
-   | [] =>
-       ga <- get_group nm_ANALOG ;;
-       when (negb (nlen (g_params ga) =? 0))
-         (rs <- lift (f_tosize rate) ;;
-          if rs =? 0 then
-            when (negb (h_byframe (hdr s) =? 1)) (mod_hdr (fun h => h_set_byframe h 1))
-          else
-            ar <- float0 15 nm_ANALOG nm_RATE ;;
-            q <- lift (f_tosize (f_div ar rate)) ;;
-            when (negb (q =? h_byframe (hdr s)))
-                 (ar2 <- float0 16 nm_ANALOG nm_RATE ;;
-                  q2 <- lift (f_tosize (f_div ar2 rate)) ;;
-                  mod_hdr (fun h => h_set_byframe h q2)))
-   end) ;;;
+  ret rate.
+
+(* channel count follows ANALOG:USED (0 when the ANALOG group has no parameter) *)
+Definition uh_analogs : Mst unit :=
   ga <- get_group nm_ANALOG ;;
-  (if negb (nlen (g_params ga) =? 0) then
+  if negb (nlen (g_params ga) =? 0) then
     au <- int0 17 nm_ANALOG nm_USED ;;
     s <- getS ;;
     when (negb (z_to_usize au =? h_nb_analogs (hdr s)))
          (au2 <- int0 18 nm_ANALOG nm_USED ;; mod_hdr (fun h => h_set_nb_analogs h (z_to_usize au2)))
-  else mod_hdr (fun h => h_set_nb_analogs h 0)) ;;;
-  (* the frame count of the header depends on its point and analog counts: compared last *)
+  else mod_hdr (fun h => h_set_nb_analogs h 0).
+
+(* the frame count of the header depends on its point and analog counts: compared last *)
+Definition uh_frames : Mst unit :=
   fz <- int0 10 nm_POINT nm_FRAMES ;;
   s <- getS ;;
   when (negb (z_to_usize fz =? h_nb_frames (hdr s)))
        (fz2 <- int0 11 nm_POINT nm_FRAMES ;;
         mod_hdr (fun h => h_set_first_last h 0 (sub64 (z_to_usize fz2) 1))).
+
+(* have_data is false only while a file is being loaded (the data section is not built yet) *)
+Definition update_header (have_data : bool) : Mst unit :=
+  rate <- uh_rate_points ;;
+  byframe_step have_data rate ;;;
+  uh_analogs ;;;
+  uh_frames.
 
 (* ---------- c3d::updateParameters ---------- *)
 Fixpoint build_names (n : nat) (i : N) (name_of : N -> Mst bstr) : Mst (list bstr) :=
